@@ -13,7 +13,9 @@ def _grammar():
   # range_start = Group((unicodeString(u">=") | unicodeString(u">"))("range_type") + number("start"))("range_start")
 
   modified = Forward()
-  potential_description = Group(identifier("potential_label") + Group(ZeroOrMore(number))("potential_parameters"))("potential_description")
+  # A parameter ends where its token ends: '1.0.0' or '1.5abc' are not two parameters
+  parameter = number + WordEnd(alphanums + "._")
+  potential_description = Group(identifier("potential_label") + Group(ZeroOrMore(parameter))("potential_parameters"))("potential_description")
   potential_definition =  modified | potential_description
 
   multi_range = Group(Optional(range_start) + potential_definition + ZeroOrMore(range_start + potential_definition))("multi_range")
